@@ -103,6 +103,8 @@ def batch_dot(gs1, ps1, cs1, gs2, ps2, cs2):
     gs: int (L1*L2,2*N) - Pauli strings in the second polynomial.
     ps: int (L1*L2) - phase indicators in the second polynomial.
     cs: complex (L1*L2) - coefficients in the second polynomial.'''
+    if gs1.shape[0] == 0 or gs2.shape[0] == 0: # product with the empty (zero) polynomial
+        return gs1.new_zeros((0, gs1.shape[1])), ps1.new_zeros((0,)), (cs1.unsqueeze(1)*cs2.unsqueeze(0)).view(-1,)
     gs = ((gs1.unsqueeze(1) + gs2.unsqueeze(0)) % 2).view(-1, gs1.shape[1])
     ps = ((ps1.unsqueeze(1) + ps2.unsqueeze(0)).view(-1,) + ipow_product(gs1, gs2)) % 4
     cs = (cs1.unsqueeze(1)*cs2.unsqueeze(0)).view(-1,)
